@@ -1,5 +1,7 @@
 package trzsz
 
+import "sync/atomic"
+
 // C19 — a zmodem session always ends by handing the terminal back.
 // The real session object runs against stub helper process, pipes and timers; the harness plays the remote side,
 // the user and the passing of time, choosing one event per step nondeterministically.
@@ -10,6 +12,8 @@ func (s *zzSink19) Write(p []byte) (int, error) {
 	s.data = append(s.data, p...)
 	return len(p), nil
 }
+
+func (s *zzSink19) Close() error { return nil }
 
 func zzContains19(hay, needle []byte) bool {
 	for s := 0; s+len(needle) <= len(hay); s++ {
@@ -59,6 +63,11 @@ func zzH_C19_session() {
 			return "/tmp", nil
 		})
 	verifQuiesce() // the event handler has taken over the streams
+	// the user's keyboard goes through the real input path of the filter that owns this session
+	f := &TrzszFilter{serverIn: srv, clientOut: cli}
+	f.options.EnableZmodem = true
+	f.zmodem.Store(z)
+	var noDrag atomic.Bool
 	dropped := false // the filter drops the session as soon as it declines server output
 	feed := func(b []byte) {
 		if !dropped && !z.handleServerOutput(b) {
@@ -78,7 +87,7 @@ func zzH_C19_session() {
 		case 4:
 			verifHelperOutput([]byte("resp"))
 		case 5:
-			z.stopTransferringFiles() // Ctrl-C
+			f.sendInput([]byte{3}, &noDrag) // Ctrl-C
 		case 6:
 			verifAdvanceTime()
 		}
@@ -93,6 +102,12 @@ func zzH_C19_session() {
 	verifAssert(!z.isTransferringFiles(), "session still claims the terminal after the line went quiet")
 	if !dropped {
 		verifAssert(!z.handleServerOutput([]byte("probe")), "remote output swallowed after the session ended")
+	}
+	// typed input flows again, Ctrl-C included, even while the remote side stays silent
+	for _, key := range []byte{'x', 3} {
+		before := len(srv.data)
+		f.sendInput([]byte{key}, &noDrag)
+		verifAssert(len(srv.data) == before+1 && srv.data[before] == key, "typed input does not reach the remote side after the session ended")
 	}
 	st := verifHelperState()
 	verifAssert(st != 1, "helper process left running")
